@@ -151,6 +151,26 @@ def cases(tier, seed):
                         out.append({"functional": functional, "method": method, "family": fam, "dtype": "float64",
                                     "n": n, "shape": kind, "bck_method": bck, "placement": placement,
                                     "guess": "zero", "cot": "dense", "plane": 0, "seed": 0})
+    # preconditioners in the backward options
+    for functional in ("rootfinder", "equilibrium", "minimize"):
+        fam = "lcosh" if functional == "minimize" else "tanh06"
+        for method in ("newton", "broyden1"):
+            for bck in ("bicgstab_pr", "bicgstab_pl", "bicgstab_plr", "cg_pc"):
+                for (n, kind) in ((2, "2n"), (8, "n"), (24, "n")):
+                    for placement in ("explicit", "editable"):
+                        out.append({"functional": functional, "method": method, "family": fam, "dtype": "float64",
+                                    "n": n, "shape": kind, "bck_method": bck, "placement": placement,
+                                    "guess": "zero", "cot": "dense", "plane": 0, "seed": 0})
+    # the object is given other tensors between the forward call and the backward pass
+    for functional in ("rootfinder", "equilibrium", "minimize"):
+        fam = "lcosh" if functional == "minimize" else "tanh06"
+        for method in ("newton", "broyden1"):
+            for bck in ("exactsolve", "bicgstab", "default"):
+                for (n, kind) in ((2, "2n"), (8, "n")):
+                    for placement in ("editable", "nnmodule"):
+                        out.append({"functional": functional, "method": method, "family": fam, "dtype": "float64",
+                                    "n": n, "shape": kind, "bck_method": bck, "placement": placement,
+                                    "guess": "zero", "cot": "dense", "plane": 0, "seed": 0, "mut": 1})
     out.sort(key=lambda c: (c["plane"], c["placement"] != "explicit", c["n"] * (2 if c["shape"] == "2n" else 1)))
     return out
 
@@ -193,6 +213,20 @@ def _bck_options(cfg, N):
         return {"method": "bicgstab"}          # every option at its default, in particular max_niter = int(1.5 N)
     if b == "bicgstab":
         return {"method": "bicgstab", "posdef": True, "rtol": 1e-11, "atol": 1e-11, "max_niter": 20 * N + 40}
+    if b in ("bicgstab_pr", "bicgstab_pl", "bicgstab_plr", "cg_pc"):
+        # documented preconditioner options of the backward solver (any non-singular operator is admissible; a
+        # fixed diagonal scaling): the gradients do not depend on it
+        import xitorch as xt
+        dt = torch.complex128 if cfg["dtype"] == "complex128" else torch.float64
+        P = xt.LinearOperator.m(torch.diag(torch.linspace(0.5, 2.0, N, dtype=torch.float64)).to(dt), is_hermitian=True)
+        if b == "cg_pc":
+            return {"method": "cg", "posdef": False, "rtol": 1e-11, "atol": 1e-11, "max_niter": 20 * N + 40, "precond": P}
+        d = {"method": "bicgstab", "posdef": True, "rtol": 1e-11, "atol": 1e-11, "max_niter": 20 * N + 40}
+        if b in ("bicgstab_pr", "bicgstab_plr"):
+            d["precond_r"] = P
+        if b in ("bicgstab_pl", "bicgstab_plr"):
+            d["precond_l"] = P
+        return d
     if b == "gmres":
         return {"method": "gmres", "posdef": True, "rtol": 1e-11, "atol": 1e-11, "max_niter": 2 * N + 4}
     if b == "broyden1":
@@ -585,6 +619,17 @@ def run_case(cfg):
     if tuple(y.shape) != tuple(y0.shape) or y.dtype != y0.dtype:
         return {"viol": [V("forward-shape-or-dtype", {"shape": list(y.shape), "dtype": str(y.dtype)})],
                 "obs": {"status": "fwd-misshaped"}, "status": "violation"}
+
+    if cfg.get("mut"):
+        # object history: after the forward call the owner gives the object OTHER tensors (the next problem of a loop
+        # that re-uses one module); the gradients of the first solution are those of the first problem
+        owner = getattr(fcn, "__self__", None)
+        for nm in prob.names:
+            old = getattr(owner, nm)
+            with torch.no_grad():
+                val = old.detach() * 1.3 + 0.2
+            setattr(owner, nm, torch.nn.Parameter(val) if isinstance(old, torch.nn.Parameter)
+                    else val.requires_grad_(old.requires_grad))
 
     # cotangent and second-order weights
     if cfg["cot"] == "dense":
